@@ -124,8 +124,7 @@ def unknown_id_obligations(cfg, V, r):
     obs = []
     for q in ('get_voltage', 'get_current', 'get_power', 'get_potential'):
         try:
-            val = getattr(sol, q)(bad)
-            if which == 'time': val = val(V.val('t', 'rany') if V.sym else np.array(0.3))
+            val = getattr(sol, q)(bad)          # the QUERY must raise: a function that only fails when it is evaluated later is a returned value
             raised = False
         except Exception:
             raised = True
